@@ -607,9 +607,12 @@ ErrLocated == outc.k = "err" /\ outc.exc = "ParseError" =>
 OnlyTwoErrors == outc.k = "err" => outc.exc \in {"ParseError", "SyntaxError"}
 
 \* C07 at the model level: all spellings of one abstract template compile to the same program
+\* (or are all rejected, with the same exception class)
 SameProgram == (Done /\ Case.same) =>
-                 /\ outc.k = "ok"
-                 /\ \A i \in 1..Len(done) : done[i].o.k = "ok" /\ done[i].o.prog = outc.prog
+                 \A i \in 1..Len(done) :
+                    /\ done[i].o.k = outc.k
+                    /\ outc.k = "ok" => done[i].o.prog = outc.prog
+                    /\ outc.k = "err" => done[i].o.exc = outc.exc
 
 LineOfIn(src, p) == 1 + CountC(Sl(src, 0, p), NL)
 
